@@ -5,7 +5,16 @@ From Minimq Require Import Bytes Varint Utf8 Props Ser De Reader Arena Core.
 
 Inductive slabel :=
 | LOther
-| LConnack (resumed : bool) (unresolved maxquota : N).   (* a successful CONNACK was processed *)
+| LConnack (resumed : bool) (unresolved maxquota : N)    (* a successful CONNACK was processed *)
+| LPacket (ok : bool).                                   (* an inbound packet was handled; ok = ack_type_ok *)
+
+(* the environment assumptions a label carries (mirrored by the ghost flag w_envok of the machine) *)
+Definition label_ok (l : slabel) : bool :=
+  match l with
+  | LOther => true
+  | LConnack resumed u m => if resumed then u <=? m else true
+  | LPacket ok => ok
+  end.
 
 Definition connack_label (s : session) (p : option rpacket) (now : N) : slabel :=
   match snd (connack_process s p now) with
@@ -23,7 +32,7 @@ Inductive sstep : session -> slabel -> session -> Prop :=
     sstep s LOther (fst (set_written s p (w + n) len))
 | SS_flushed s p now : sstep s LOther (fst (complete_flush s p now))
 | SS_reader s r : sstep s LOther (set_reader s r)
-| SS_packet s p : sstep s LOther (fst (handle_packet s p))
+| SS_packet s p : sstep s (LPacket (ack_type_ok s p)) (fst (handle_packet s p))
 | SS_publish s live r : sstep s LOther (fst (publish_middle s live r))
 | SS_subscribe s t ps : sstep s LOther (fst (subscribe_middle s t ps))
 | SS_unsubscribe s t ps : sstep s LOther (fst (unsubscribe_middle s t ps))
@@ -62,23 +71,18 @@ Lemma spath_inv : forall (P : session -> Prop),
   forall s ls s', spath s ls s' -> P s -> P s'.
 Proof. intros P Hc s ls s' H. induction H; intros HP; [exact HP|]. apply IHspath. eapply Hc; eassumption. Qed.
 
-(* quiet reachability: only LOther steps *)
-Definition qreach (s s' : session) : Prop := exists ls, spath s ls s' /\ Forall (eq LOther) ls.
-Lemma qreach_refl : forall s, qreach s s.
-Proof. intros. exists []. split; constructor. Qed.
-Lemma qreach_trans : forall a b c, qreach a b -> qreach b c -> qreach a c.
+(* reachability together with the conjunction of the environment flags of the labels passed *)
+Definition ereach (s : session) (b : bool) (s' : session) : Prop :=
+  exists ls, spath s ls s' /\ forallb label_ok ls = b.
+Lemma ereach_refl : forall s, ereach s true s.
+Proof. intros. exists []. split; [constructor|reflexivity]. Qed.
+Lemma ereach_trans : forall a b c x y, ereach a x b -> ereach b y c -> ereach a (x && y) c.
 Proof.
-  intros a b c [l1 [H1 F1]] [l2 [H2 F2]]. exists (l1 ++ l2). split.
+  intros a b c x y [l1 [H1 F1]] [l2 [H2 F2]]. exists (l1 ++ l2). split.
   - eapply spath_app; eassumption.
-  - apply Forall_app. now split.
+  - rewrite forallb_app. now rewrite F1, F2.
 Qed.
-Lemma qreach_step : forall s s', sstep s LOther s' -> qreach s s'.
-Proof. intros. exists [LOther]. split; [now apply spath_one | repeat constructor]. Qed.
-
-Lemma qreach_inv : forall (P : session -> Prop),
-  (forall s s', sstep s LOther s' -> P s -> P s') ->
-  forall s s', qreach s s' -> P s -> P s'.
-Proof.
-  intros P Hc s s' [ls [Hp Hf]]. induction Hp; intros HP; [exact HP|].
-  inversion Hf; subst. apply IHHp; [assumption|]. eapply Hc; eassumption.
-Qed.
+Lemma ereach_step : forall s l s', sstep s l s' -> ereach s (label_ok l) s'.
+Proof. intros. exists [l]. split; [now apply spath_one | cbn [forallb]; now rewrite andb_true_r]. Qed.
+Lemma ereach_sreach : forall s b s', ereach s b s' -> sreach s s'.
+Proof. intros s b s' [ls [H _]]. now exists ls. Qed.
